@@ -16,12 +16,21 @@ git diff > /dev/shm/seed_confirm.patch; git checkout -q -- .
 env $PP /venv/bin/python mutant_demo.py > $out/demo_without_change.txt 2>&1; rc_without=$?
 git apply /dev/shm/seed_confirm.patch
 suite=$(env $PP /venv/bin/python -m pytest -q -p no:cacheprovider src/test/python 2>&1 | tail -1)
-# registered check against /repo with the patch applied
+# registered check against /repo with the patch applied (or, with SEED_COPY=1, against a scratch worktree of /repo's
+# HEAD with the patch applied - used while a background soak is reading /repo itself)
 cd /verif
-git -C /repo apply $out/patch.diff || { echo "patch does not apply to /repo"; exit 2; }
-VERIF_KEEP_REPLAYS=1 /venv/bin/python run.py $chk --runs $runs --no-evidence > $out/check_output.txt 2>&1; rc_check=$?
-git -C /repo checkout -- .
-git -C /repo status --short | grep -v '^??' | head -3
+if [ -n "${SEED_COPY:-}" ]; then
+  cp=/tmp/wt-confirm-$$
+  git -C /repo worktree add -q --detach $cp HEAD || exit 2
+  git -C $cp apply $out/patch.diff || { echo "patch does not apply to HEAD"; git -C /repo worktree remove --force $cp; exit 2; }
+  VERIF_REPO=$cp VERIF_KEEP_REPLAYS=1 /venv/bin/python run.py $chk --runs $runs --no-evidence > $out/check_output.txt 2>&1; rc_check=$?
+  git -C /repo worktree remove --force $cp
+else
+  git -C /repo apply $out/patch.diff || { echo "patch does not apply to /repo"; exit 2; }
+  VERIF_KEEP_REPLAYS=1 /venv/bin/python run.py $chk --runs $runs --no-evidence > $out/check_output.txt 2>&1; rc_check=$?
+  git -C /repo checkout -- .
+  git -C /repo status --short | grep -v '^??' | head -3
+fi
 grep -c "^VIOLATION" $out/check_output.txt > /dev/null
 /venv/bin/python - "$out" "$wt" "$prop" "$chk" "$runs" "$rc_with" "$rc_without" "$suite" "$rc_check" <<'PY'
 import json, sys, re
@@ -37,7 +46,7 @@ meta = {
   "confirmed_by_me": {
     "demo_exit_with_change": int(rc_with), "demo_exit_without_change": int(rc_without),
     "test_suite_with_change": suite.strip(),
-    "check_command": "git -C /repo apply patch.diff; /venv/bin/python /verif/run.py %s --runs %s --no-evidence; git -C /repo checkout -- ." % (chk, runs),
+    "check_command": ("git -C /repo apply patch.diff; /venv/bin/python /verif/run.py %s --runs %s --no-evidence; git -C /repo checkout -- ." % (chk, runs)) if not __import__("os").environ.get("SEED_COPY") else ("scratch worktree of /repo HEAD with patch.diff applied; VERIF_REPO=<it> /venv/bin/python /verif/run.py %s --runs %s --no-evidence" % (chk, runs)),
     "check_exit": int(rc_check), "violation_signatures": [{"signature": s, "occurrences": int(n)} for s, n in sigs],
   },
   "caught": int(rc_check) == 1 and bool(sigs),
